@@ -154,6 +154,11 @@ class CovarianceMatrix(object):
                 subap_nj = 0
                 # Only loop over upper diagonal of covariance matrix as its symmetrical
                 for wfs_j in range(wfs_i+1):
+                    # a beacon does not sense turbulence at or above its own
+                    # altitude (the cone has collapsed: no footprint there)
+                    if (self.subap_layer_diameters[layer_n][wfs_i] <= 0
+                            or self.subap_layer_diameters[layer_n][wfs_j] <= 0):
+                        continue
                     cov_xx, cov_yy, cov_xy, cov_yx = wfs_covariance(
                             self.n_subaps[wfs_i], self.n_subaps[wfs_j],
                             self.subap_layer_positions[layer_n][wfs_i], self.subap_layer_positions[layer_n][wfs_j],
@@ -211,6 +216,9 @@ class CovarianceMatrix(object):
             for wfs_i in range(self.n_wfs):
                 # Only loop over upper diagonal of covariance matrix as its symmetrical
                 for wfs_j in range(wfs_i+1):
+                    if (self.subap_layer_diameters[layer_n][wfs_i] <= 0
+                            or self.subap_layer_diameters[layer_n][wfs_j] <= 0):
+                        continue
                     args.append((
                             self.n_subaps[wfs_i], self.n_subaps[wfs_j],
                             self.subap_layer_positions[layer_n][wfs_i], self.subap_layer_positions[layer_n][wfs_j],
@@ -222,6 +230,9 @@ class CovarianceMatrix(object):
             thread_n = 0
             for wfs_i in range(self.n_wfs):
                 for wfs_j in range(wfs_i+1):
+                    if (self.subap_layer_diameters[layer_n][wfs_i] <= 0
+                            or self.subap_layer_diameters[layer_n][wfs_j] <= 0):
+                        continue
                     cov_xx, cov_yy, cov_xy, cov_yx = self.cov_mats[thread_n]
 
                     subap_ni = self.n_subaps[:wfs_i].sum()
